@@ -61,7 +61,7 @@ def main():
             "property": "C12", "status": "open", "key": k,
             "what": "[%s] %s Observed here: %s" % (fam[0], fam[1], r["what"][:400]),
             "witness": {
-                "minimal": {"zone_beyond_apex_soa_and_one_ns": mw.get("zone"), "message": mw.get("message")},
+                "minimal": {"zone": mw.get("zone"), "message": mw.get("message")},
                 "observed": {"rcode": c.get("rcode"), "pre_state": c.get("pre_state"), "post_state": c.get("post_state")},
                 "replay_case": {"initial_zone": c.get("initial_zone"), "history": c.get("history"), "message": c.get("message"), "text": c.get("text")},
             },
